@@ -62,6 +62,7 @@ type faultSpec struct {
 	Update      bool     `json:"update"`       // Update of EDS / PodTemplate fails
 	RsDelete    []string `json:"rs_delete"`    // replica-set deletions fail
 	RsCreate    bool     `json:"rs_create"`    // replica-set creation fails
+	ListFail    []string `json:"list_fail"`    // List calls for these kinds fail (reads: nothing is recorded)
 	Lost        bool     `json:"lost"`         // failing calls are applied, then the error is returned
 	StopAt      int      `json:"stop_at"`      // >0: the process stops (panic) before the k-th write of this op
 	StopAfter   int      `json:"stop_after"`   // >0: the process stops right after the k-th write of this op
@@ -190,6 +191,27 @@ type world struct {
 	// of settings are therefore re-decoded from the text (see verbatim).
 	rawMu          sync.Mutex
 	rawSettingSpec map[string]json.RawMessage
+}
+
+func (w *world) listFails(list client.ObjectList) bool {
+	w.mu.Lock()
+	defer w.mu.Unlock()
+	if !w.inReconcile || w.faults == nil || len(w.faults.ListFail) == 0 {
+		return false
+	}
+	kind := ""
+	switch list.(type) {
+	case *corev1.PodList:
+		kind = "Pod"
+	case *corev1.NodeList:
+		kind = "Node"
+	case *v1alpha1.ExtendedDaemonSetReplicaSetList:
+		kind = "ExtendedDaemonSetReplicaSet"
+	case *v1alpha1.ExtendedDaemonsetSettingList:
+		kind = "ExtendedDaemonsetSetting"
+	}
+
+	return contains(w.faults.ListFail, kind)
 }
 
 // permute: the list reversed
@@ -490,6 +512,9 @@ func (w *world) build(objs []client.Object) {
 			return err
 		},
 		List: func(ctx context.Context, c client.WithWatch, list client.ObjectList, opts ...client.ListOption) error {
+			if w.listFails(list) {
+				return errInjected
+			}
 			err := c.List(ctx, list, opts...)
 			if sl, ok := list.(*v1alpha1.ExtendedDaemonsetSettingList); ok && err == nil {
 				for i := range sl.Items {
@@ -1226,7 +1251,7 @@ func (w *world) kubelet(op opSpec) error {
 }
 
 // edit applies a small user/environment edit given as op.Cmd to the object op.Kind/op.Ns/op.Name:
-// "image:<img>" (ExtendedDaemonSet template), "annotate:<k>=<v>", "unannotate:<k>", "label:<k>=<v>",
+// "image:<img>" (ExtendedDaemonSet template), "tmplname:<name>" (metadata.name of the pod template), "annotate:<k>=<v>", "unannotate:<k>", "label:<k>=<v>",
 // "unlabel:<k>", "taint:<key>=<value>:<effect>", "untaint", "restart:<n>" (pod: container restart count).
 func (w *world) edit(op opSpec) error {
 	ctx := context.TODO()
@@ -1246,6 +1271,12 @@ func (w *world) edit(op opSpec) error {
 			return fmt.Errorf("image edit needs an ExtendedDaemonSet with a container")
 		}
 		e.Spec.Template.Spec.Containers[0].Image = arg
+	case "tmplname":
+		e, ok := obj.(*v1alpha1.ExtendedDaemonSet)
+		if !ok {
+			return fmt.Errorf("tmplname edit needs an ExtendedDaemonSet")
+		}
+		e.Spec.Template.Name = arg
 	case "annotate":
 		k, v := kv()
 		a := obj.GetAnnotations()
